@@ -28,6 +28,7 @@ import (
 	"os/exec"
 	"path/filepath"
 	"regexp"
+	"runtime/debug"
 	"sort"
 	"strconv"
 	"strings"
@@ -44,6 +45,7 @@ import (
 	sdk "github.com/cosmos/cosmos-sdk/types"
 	"github.com/cosmos/cosmos-sdk/types/tx/signing"
 	authsign "github.com/cosmos/cosmos-sdk/x/auth/signing"
+	authtypes "github.com/cosmos/cosmos-sdk/x/auth/types"
 	banktypes "github.com/cosmos/cosmos-sdk/x/bank/types"
 	govtypes "github.com/cosmos/cosmos-sdk/x/gov/types"
 
@@ -61,6 +63,7 @@ import (
 	evm "github.com/tharsis/ethermint/x/evm/types"
 
 	"github.com/teleport-network/teleport/app"
+	cmdcfg "github.com/teleport-network/teleport/cmd/config"
 	"github.com/teleport-network/teleport/syscontracts"
 	erc20contracts "github.com/teleport-network/teleport/syscontracts/erc20"
 	stakingcontract "github.com/teleport-network/teleport/syscontracts/staking"
@@ -569,6 +572,11 @@ func (w *c14World) step(line string) {
 		}
 		_, _ = safely(func() {
 			switch f[2] {
+			case "render": // this process renders 60001 throw-away addresses: cosmos-sdk's process-global bech32 LRU (60000
+				// entries, keyed by the raw bytes only) forgets everything it held before
+				for i := 0; i < 60001; i++ {
+					_ = sdk.AccAddress(crypto.Keccak256([]byte(fmt.Sprintf("c14-throwaway-%d", i)))[:20]).String()
+				}
 			case "bscnext": // the next genuine BSC header is verified on a dropped context (fills any verification cache)
 				if w.bscOn < 0 || w.bscNext >= len(w.bscHdrs) {
 					return
@@ -598,6 +606,19 @@ func (w *c14World) step(line string) {
 				}
 			}
 		})
+	case "modsend": // a bank send to every module account of the application: all of them are blocked recipients on every node
+		c := w.ch[ci(1)]
+		var names []string
+		for n := range app.GetMaccPerms() {
+			if n == "distribution" {
+				continue // the only module account that may receive funds (a direct send would break the distribution invariant)
+			}
+			names = append(names, n)
+		}
+		sort.Strings(names)
+		for _, n := range names {
+			w.deliver("modsend", c, banktypes.NewMsgSend(c.SenderAcc, authtypes.NewModuleAddress(n), sdk.NewCoins(sdk.NewInt64Coin(sdk.DefaultBondDenom, 3))))
+		}
 	case "bscforged": // the next BSC header with its seal replaced by a signature of a stranger: same seal hash, other signer.
 		// Rejected (coinbase mismatch) by every node — unless a node remembers the signer it recovered for that seal hash.
 		if w.bscOn < 0 || w.bscNext >= len(w.bscHdrs) {
@@ -1085,6 +1106,9 @@ func c14Child(t *testing.T) {
 		if pan {
 			// a panic of the scaffolding or of code outside recovery: recorded (both twins must agree), the
 			// history ends here because the block state is undefined
+			if os.Getenv("VERIF_C14_DEBUG") != "" {
+				fmt.Fprintln(os.Stderr, "C14DEBUG panic:", strings.Split(msg, "\n")[0])
+			}
 			w.note("PANIC:" + c14Digest([]byte(msg)))
 			w.out.WriteString(fmt.Sprintf("%d %s | PANIC:%s |\n", i+1, strings.Fields(l)[0], c14Digest([]byte(msg))))
 			w.out.Flush()
@@ -1107,7 +1131,20 @@ func c14TmpUsable() bool {
 // the parent
 // ---------------------------------------------------------------------------------------------------------
 
+// c14RepoPath: the source tree this test binary was BUILT against. ./check builds with a private -modfile whose replace
+// directive names the tree under check (VERIF_REPO); the tracked harness/go.mod always names /repo, so the build info of the
+// binary is the authority (then the environment, then the tracked go.mod).
 func c14RepoPath() string {
+	if bi, ok := debug.ReadBuildInfo(); ok {
+		for _, d := range bi.Deps {
+			if d.Path == "github.com/teleport-network/teleport" && d.Replace != nil && d.Replace.Path != "" {
+				return d.Replace.Path
+			}
+		}
+	}
+	if p := os.Getenv("VERIF_REPO"); p != "" {
+		return p
+	}
 	if b, err := os.ReadFile(filepath.Join(verifRoot(), "harness", "go.mod")); err == nil {
 		if m := regexp.MustCompile(`github.com/teleport-network/teleport => (\S+)`).FindSubmatch(b); m != nil {
 			return string(m[1])
@@ -1143,6 +1180,10 @@ func c14Script(r *Rec, n int, eth int) []string {
 			s = append(s, fmt.Sprintf("bank %d %d %d %d", c, rng.Intn(6), 1+rng.Intn(1000), 1+rng.Intn(3)))
 			r.Count("op.bank")
 		case k < 20:
+			if rng.Intn(6) == 0 {
+				s = append(s, fmt.Sprintf("discard %s render", []string{"a", "b"}[rng.Intn(2)]), fmt.Sprintf("modsend %d", c))
+				r.Count("op.modsend")
+			}
 			s = append(s, fmt.Sprintf("commit %d %d", c, 1+rng.Intn(3)))
 			r.Count("op.commit")
 		case k < 30:
@@ -1633,6 +1674,15 @@ func c14At(lines []string) string {
 		return ""
 	}
 	return " at " + strings.Join(lines, ", ")
+}
+
+// TestMain configures the bech32 prefixes AFTER package initialisation, the way cmd/teleport's main() does (cmd/config):
+// anything a package-level initialiser rendered before is rendered with the default `cosmos` prefix.
+func TestMain(m *testing.M) {
+	cfg := sdk.GetConfig()
+	cmdcfg.SetBech32Prefixes(cfg)
+	cmdcfg.SetBip44CoinType(cfg)
+	os.Exit(m.Run())
 }
 
 func TestC14(t *testing.T) {
